@@ -33,12 +33,28 @@ def authOutcomes (chain : List MW) (verifies : Bool) : List Outcome :=
     | none => [⟨0, true⟩]          -- no path of the decision function applies: not modelled
     | some ok => (Chf.Gen.checkPaths.filter (feasible ok)).map fun p => serveVia p chain
 
+def hexVal (c : Char) : Option Nat :=
+  if '0' ≤ c ∧ c ≤ '9' then some (c.toNat - '0'.toNat)
+  else if 'a' ≤ c ∧ c ≤ 'f' then some (c.toNat - 'a'.toNat + 10)
+  else if 'A' ≤ c ∧ c ≤ 'F' then some (c.toNat - 'A'.toNat + 10)
+  else none
+
+/-- the router matches the DECODED path (net/http decodes `%XX`, gin routes on `URL.Path`): a path spelled with escapes
+    names the same route as its plain spelling -/
+def pctDecode : List Char → List Char
+  | '%' :: a :: b :: r =>
+    (match hexVal a, hexVal b with
+     | some x, some y => Char.ofNat (16 * x + y) :: pctDecode r
+     | _, _ => '%' :: pctDecode (a :: b :: r))
+  | c :: r => c :: pctDecode r
+  | [] => []
+
 def authOp : Tok → String
   | "probe" :: svcs :: method :: hpath :: kind :: _ =>
     (match bytesOfHex hpath with
      | none => "bad-op"
      | some pb =>
-       let path := strOfBytes pb
+       let path := String.ofList (pctDecode (strOfBytes pb).toList)
        let names := if svcs == "-" then [] else svcs.splitOn ","
        let table := (Chf.Gen.runtimeRoutes.find? (·.1 == names)).map (·.2) |>.getD []
        let router := newRouter Chf.Gen.caseFacts (routesOfTable table) names
